@@ -42,6 +42,25 @@ def host_suites(ctx, rnd, thorough, n_sample=None):
     c10.judge(ctx, "model-histories", c10.replay_histories(hists), t0, own=c10.OWN[ctx.prop])
     t0 = time.time()
     c10.judge(ctx, "api-append-histories", c10.replay_histories(api_histories(rnd, thorough)), t0, own=c10.OWN[ctx.prop])
+    t0 = time.time()
+    c10.judge(ctx, "overflow-conversions", c10.replay_histories(overflow_histories(rnd, thorough)), t0, own=c10.OWN[ctx.prop])
+
+
+def overflow_histories(rnd, thorough):
+    """file_util conversions of SEVERAL large files in one command onto a disk: all of them fit, or the command fails and the host file is left as it was -
+    also when the first files would fit and a later one does not (new disk, and append to a disk that already holds files)."""
+    hs = []
+    for big, srcn in ((60000, 2), (60000, 3), (40000, 3), (40000, 4), (20000, 7), (20000, 8), (2000, 60), (2304 * 2 - 10, 34), (2304 * 2 - 10, 35)):
+        for init in ({"kind": "absent", "big": False, "files": []}, {"kind": "dsk", "big": False, "files": [101, 102]}, {"kind": "dsk", "big": False, "files": []}):
+            for app in ((False, True) if init["kind"] == "dsk" else (False,)):
+                for srckind in ("cas", "dsk"):
+                    if srckind == "dsk" and srcn * ((big + 10) // 2304 + 1) > 68:
+                        continue                         # (the source disk itself could not hold them)
+                    ids = list(range(201, 201 + srcn))
+                    hs.append({"init": init, "srcbig": big, "srckind": srckind,
+                               "cmds": [{"tool": "util", "sw": "dsk", "app": app, "named": True, "new": ids, "srcn": srcn},
+                                        {"tool": "util", "sw": "list", "app": False, "named": True, "new": [], "srcn": 0}]})
+    return hs if thorough else hs[rnd.randrange(2)::2]
 
 
 def run(ctx):
